@@ -376,7 +376,9 @@ pub fn derive_block(input: TokenStream) -> TokenStream {
         let it = if in_names.len() == 1 {
             quote! { #first.iter().take(n) }
         } else {
-            quote! { #first.iter().take(n)#(.zip(#rest.iter()))* }
+            // izip!() and not chained .zip(), because with three or more
+            // inputs .zip() nests the tuples: ((a, b), c).
+            quote! { itertools::izip!(#first.iter().take(n)#(, #rest.iter())*) }
         };
         if has_attr(&input.attrs, "sync", STRUCT_ATTRS) {
             let first_tags = &in_tag_names[0];
